@@ -109,7 +109,19 @@ pub fn run_obs(args: &[String]) -> i32 {
                     Ok(Ok(b)) => {
                         let mut wbuf: Vec<u8> = Vec::new();
                         let wr = catch(|| erltf::encode_to_writer(&t, &mut wbuf));
-                        let writer_same = matches!(wr, Ok(Ok(()))) && wbuf == b;
+                        let mut writer_same = matches!(wr, Ok(Ok(()))) && wbuf == b;
+                        // writers that take what they like (the io::Write contract: write may accept any non-empty prefix):
+                        // everything must still arrive, and a writer that is full must surface as an error
+                        for per_call in [1usize, 7] {
+                            let mut sw = ShortWriter { got: Vec::new(), per_call, cap: usize::MAX };
+                            let r = catch(|| erltf::encode_to_writer(&t, &mut sw));
+                            writer_same &= matches!(r, Ok(Ok(()))) && sw.got == b;
+                        }
+                        if b.len() > 3 {
+                            let mut sw = ShortWriter { got: Vec::new(), per_call: 2, cap: b.len() - 1 };
+                            let r = catch(|| erltf::encode_to_writer(&t, &mut sw));
+                            writer_same &= matches!(r, Ok(Err(_)));
+                        }
                         o.insert("enc".into(), json!({"ok": true, "bytes": bytes_json(&b), "canonical": b == spec_enc, "writer_same": writer_same}));
                         o.insert("dec_lib".into(), obs_owned(&b));
                         if do_borrowed {
@@ -428,4 +440,15 @@ pub fn run_id_twins(args: &[String]) -> i32 {
     }
     w.finish();
     0
+}
+
+/// an io::Write that accepts at most `per_call` bytes per call and `cap` bytes in all (then reports 0 bytes written)
+struct ShortWriter { got: Vec<u8>, per_call: usize, cap: usize }
+impl std::io::Write for ShortWriter {
+    fn write(&mut self, buf: &[u8]) -> std::io::Result<usize> {
+        let n = buf.len().min(self.per_call).min(self.cap - self.got.len());
+        self.got.extend_from_slice(&buf[..n]);
+        Ok(n)
+    }
+    fn flush(&mut self) -> std::io::Result<()> { Ok(()) }
 }
